@@ -46,9 +46,8 @@ import (
 	"path/filepath"
 	"regexp"
 	"runtime"
-	"runtime/debug"
-	"runtime/pprof"
 	"sort"
+	"strconv"
 	"strings"
 	"sync"
 	"sync/atomic"
@@ -77,6 +76,7 @@ const (
 	readCap     = maxLen + 64 // a hit longer than any value fills this
 )
 
+//go:norace
 func mix(z uint64) uint64 {
 	z = (z ^ (z >> 30)) * 0xBF58476D1CE4E5B9
 	z = (z ^ (z >> 27)) * 0x94D049BB133111EB
@@ -86,7 +86,12 @@ func mix(z uint64) uint64 {
 // ---------------------------------------------------------------------------
 // self-describing values
 
+// The value generator/comparator below only ever touches per-goroutine harness scratch
+// memory (bytes reach it through the instrumented ReadAt/Write copies), so it is exempt
+// from race instrumentation: that halves the harness' own cost in the race build.
+
 // valWord is the j-th little-endian 8-byte word of the value of writer wid of key.
+//go:norace
 func valWord(base uint64, key, wid, length int, poison bool, j int) uint64 {
 	switch j {
 	case 0:
@@ -110,6 +115,8 @@ func valBase(salt uint64, key, wid int) uint64 {
 }
 
 // fill writes the whole value (len(dst) bytes) into dst.
+//
+//go:norace
 func fill(dst []byte, salt uint64, key, wid int, poison bool) {
 	L := len(dst)
 	base := valBase(salt, key, wid)
@@ -127,6 +134,8 @@ func fill(dst []byte, salt uint64, key, wid int, poison bool) {
 
 // firstMismatch compares buf with the first len(buf) bytes of the (non-poison) value
 // (key, wid, length) and returns the first differing offset or -1.
+//
+//go:norace
 func firstMismatch(buf []byte, salt uint64, key, wid, length int) int {
 	base := valBase(salt, key, wid)
 	n := len(buf)
@@ -286,7 +295,7 @@ type op struct {
 	pass      bool // PassThrough() on Get
 	hold      bool
 	ranges    []rng2
-	yieldMask uint32
+	yieldMask uint64
 }
 
 type round struct {
@@ -373,7 +382,7 @@ func genRound(r *vf.Run, idx int, configs []cfg) *round {
 	for gi := 0; gi < rd.nG; gi++ {
 		g := rng.Derive(uint64(gi) + 1)
 		for j := 0; j < opsPerG; j++ {
-			o := op{key: g.Intn(rd.nKeys), w2: -1, yieldMask: uint32(g.U64())}
+			o := op{key: g.Intn(rd.nKeys), w2: -1, yieldMask: g.U64()}
 			switch x := g.Intn(100); {
 			case x < 38:
 				o.kind = opWrite
@@ -619,7 +628,7 @@ func (rd *round) judge(buf []byte, key int, getRet int64) verdict {
 // operations
 
 func (g *gstate) yield(o *op, bit uint) {
-	if o.yieldMask&(1<<bit) != 0 {
+	if o.yieldMask>>(bit*2)&3 == 3 { // 1 in 4
 		runtime.Gosched()
 	}
 }
@@ -971,6 +980,12 @@ func (g *gstate) run() {
 // round driver
 
 // cpuMillis: user+system CPU time of this process (rounds run one after the other).
+func minflt() int64 {
+	var ru syscall.Rusage
+	syscall.Getrusage(syscall.RUSAGE_SELF, &ru)
+	return ru.Minflt
+}
+
 func cpuMillis() int64 {
 	var ru syscall.Rusage
 	if syscall.Getrusage(syscall.RUSAGE_SELF, &ru) != nil {
@@ -1017,6 +1032,7 @@ func runRound(r *vf.Run, rd *round, bufs [][]byte) (goOn bool) {
 			g.run()
 		}(gs[i])
 	}
+	f0, c0 := minflt(), cpuMillis()
 	finished := r.Watchdog(10*time.Minute, "round did not finish", func() {
 		close(start)
 		wg.Wait()
@@ -1025,6 +1041,8 @@ func runRound(r *vf.Run, rd *round, bufs [][]byte) (goOn bool) {
 		return false // goroutines leaked and still use the scratch buffers: stop the run (inconclusive recorded)
 	}
 
+	r.Count("EXP_faults_run", int(minflt()-f0))
+	r.Count("EXP_cpu_run", int(cpuMillis()-c0))
 	var tot [nCounters]int64
 	for _, g := range gs {
 		for i, v := range g.cnt {
@@ -1130,24 +1148,27 @@ func sampleOps(rd *round, g, n int) []string {
 }
 
 func body(r *vf.Run) {
-	debug.SetGCPercent(400) // fewer GC cycles = less shadow-memory churn in the race build; the harness heap is small
 	configs := allConfigs()
-	if pf := os.Getenv("C11_PROF"); pf != "" {
-		f, _ := os.Create(pf)
-		pprof.StartCPUProfile(f)
-		defer pprof.StopCPUProfile()
-		configs = configs[0:1]
+	n := r.N(17*4, 17*20) // every configuration 4 / 20 times (capacities, goroutine and key counts redrawn each time)
+	if v, err := strconv.Atoi(os.Getenv("C11_ROUNDS")); err == nil && v > 0 {
+		n = v // development only (timing experiments); a run below the floor exits 3
 	}
-	n := r.N(17*8, 17*110)
-	if os.Getenv("C11_PROF") != "" {
-		n = 6
-	}
+	// Per-goroutine scratch (value to write x2, full read, two range reads) lives outside
+	// the Go heap: 29 MB of permanently live heap would only inflate the GC target and with
+	// it the number of fresh (page-faulting, shadow-mapped) pages the race build touches.
 	bufs := make([][]byte, 32)
 	for i := range bufs {
-		bufs[i] = make([]byte, 2*maxLen+readCap+2*65536)
+		b, err := syscall.Mmap(-1, 0, 2*maxLen+readCap+2*65536, syscall.PROT_READ|syscall.PROT_WRITE, syscall.MAP_ANON|syscall.MAP_PRIVATE)
+		if err != nil {
+			b = make([]byte, 2*maxLen+readCap+2*65536)
+		}
+		bufs[i] = b
 	}
 	for i := 0; i < n; i++ {
+		f0, c0 := minflt(), cpuMillis()
 		rd := genRound(r, i, configs)
+		r.Count("EXP_faults_gen", int(minflt()-f0))
+		r.Count("EXP_cpu_gen", int(cpuMillis()-c0))
 		if !runRound(r, rd, bufs) {
 			break
 		}
@@ -1205,5 +1226,5 @@ func main() {
 		"each case is one round: a fresh cache of one configuration (directory cache x {Direct,SyncAdd,FadvDontNeed} x {layer.newCache wiring, default wiring} or the memory cache; LRU capacities 1-4), "+
 			"8-32 goroutines x 30-90 scripted ops over a key set larger than both LRU capacities, all drawn from the seed; "+
 			"non-trivial = the round fully verified >=10 hits, among them values written by another goroutine, hits from every tier the configuration serves from (memory LRU and file for non-direct directory caches, file for direct ones), and re-read at least one Reader held open across other operations; distinct by round script",
-		40, 500, body)
+		20, 100, body)
 }
